@@ -34,5 +34,5 @@ TEXT = dict(
     design_ref="DESIGN.md §3-A, §4 C02",
     technique="property-based testing (rapid) of generated schedules over real raft.Node replicas in a schedule-owning simulator; history-invariant oracle: global index->entry map filled by the first hand-out, gap-free hand-out per incarnation, snapshot (index, term, ConfState) consistency, raft panics",
     level_text="Generated-schedule exploration. Every Ready.CommittedEntries / Ready.Snapshot of every replica and incarnation is compared with a global map index -> (term, type, hash(payload)): same entry everywhere, strictly consecutive indexes per incarnation starting after its snapshot, snapshots only forward and consistent with the map in (index, term) and in ConfState (fold of the applied conf changes). A panic inside raft under a legal schedule is a violation. Half of the thorough budget goes to phase-structured election cases on 3 replicas with one-entry messages (the shape needed to expose commit-rule defects). Held on everything explored outside the excluded triggers; no absence claim.",
-    level_note="One genuine violation is recorded as known finding C02-nonleader-commits-on-conf-replay (a restarted follower that re-applies a RemoveNode leaving it alone in its rebuilt configuration commits its own unreplicated tail). The findings of C01/C03 that break this property too (single-voter apply-before-WAL, partial bootstrap configuration, RocksStorage stale tail, WAL replay resurrecting a truncated suffix) have their triggers excluded here as well. Sensitivity: the Figure-8 mutant (maybeCommit without the current-term check) falls to the quick tier (L3 after 140-700 cases, L2 after 400-800). Trusted: the simulator's durability model and apply-side model (see C01).",
+    level_note="The genuine violation this check found on the pinned tree (C02-nonleader-commits-on-conf-replay: a restarted follower that re-applies a RemoveNode leaving it alone in its rebuilt configuration commits its own unreplicated tail) is repaired in /repo, as are the C03 findings that broke this property too; only the trigger of the open C01-partial-bootstrap-self-election is still excluded. Sensitivity: the Figure-8 mutant (maybeCommit without the current-term check) falls to the quick tier (L3 after 140-700 cases, L2 after 400-800). Trusted: the simulator's durability model and apply-side model (see C01).",
 )
